@@ -18,8 +18,11 @@ def seeded_table():
         caught = sorted(k for k, v in det.items() if v["status"] == "caught")
         missed = sorted(k for k, v in det.items() if v["status"] != "caught" and k.split(":")[0] + ":quick" not in caught
                         and k.split(":")[0] + ":thorough" not in caught)
+        note = m.get("needs_to_manifest", "").replace("|", "/")
+        if m.get("outside_stated_family"):
+            note += " **Outside the stated family:** " + m["outside_stated_family"].replace("|", "/")
         rows.append("| `seeded/%s` | %s | %s | %s | %s |" % (os.path.basename(os.path.dirname(meta)), m["property"],
-                                                            m.get("needs_to_manifest", "").replace("|", "/"), ", ".join(caught) or "-", ", ".join(missed) or "-"))
+                                                            note, ", ".join(caught) or "-", ", ".join(missed) or "-"))
     return "\n".join(rows)
 
 
